@@ -4,6 +4,8 @@ from rules import gdsrules as gr
 
 def run(ctx):
     g = gr.Gds(ctx)
+    from rules import deadrules as _dr
+    _dr.rule_parsed_fields_used(ctx, "R03.10", ("gds21::read::",), 30)
     gr.rule_enum_numbers(ctx, g, "R03.0")
     gr.rule_decode_table(ctx, g, "R03.1")
     gr.rule_parser_acceptance(ctx, g, "R03.2")
